@@ -348,6 +348,14 @@ class UserFcn:
         return self.fcn(*args, **kwds)
 
     def __reduce__(self):
+        # the library's own functions (identity, unweighted, square) are singletons that the vectorised fills test
+        # with ``is``: pickle them by reference, so that a clone takes the same code paths as its original
+        import histogrammar.defs
+
+        for singleton in ("identity", "unweighted", "square"):
+            if self is getattr(histogrammar.defs, singleton, None):
+                return (_librarySingleton, (singleton,))
+
         if isinstance(self.expr, basestring) or self.expr is None:
             return (deserializeString, (self.__class__, self.expr, self.name))
 
@@ -477,6 +485,13 @@ class CachedFcn(UserFcn):
 
     def __repr__(self):
         return f"CachedFcn({self.expr}, {self.name})"
+
+
+def _librarySingleton(name):
+    """Used by Pickle to hand back one of the library's own singleton functions (histogrammar.defs.identity, ...)."""
+    import histogrammar.defs
+
+    return getattr(histogrammar.defs, name)
 
 
 def deserializeString(cls, expr, name):
